@@ -1,5 +1,5 @@
 """C18: joint counts are exact and mutual information obeys its algebraic laws."""
-import json, math, os, subprocess, sys
+import json, math, os, subprocess, sys, warnings
 from fractions import Fraction as F
 
 HERE = os.path.dirname(os.path.abspath(__file__))
@@ -7,14 +7,15 @@ sys.path.insert(0, os.path.dirname(HERE))
 import numpy as np
 from core import cz, cn, cb, cq, clist, copt, VERIF
 sys.path.insert(0, os.path.join(VERIF, "translator"))
-import tr_info
+import tr_info, tr_infopy
 
 PID = "C18"
 PROPS_FILE = "Props/C18.v"
-MODEL_TARGETS = ["Model/JointCounts.vo", "Model/Info.vo", "Gen/InfoGen.vo"]
-GEN_FILES = ["Gen/InfoGen.v"]
+MODEL_TARGETS = ["Model/JointCounts.vo", "Model/Info.vo", "Gen/InfoGen.vo", "Base/InfoPyBase.vo", "Gen/MutualInfoGen.vo",
+                 "Gen/EntropyGen.vo"]
+GEN_FILES = ["Gen/InfoGen.v", "Gen/MutualInfoGen.v", "Gen/EntropyGen.v"]
 CASE_HEADER = """From Coq Require Import List ZArith QArith Bool.
-From EV Require Import CaseLib JointCounts Info InfoBase InfoGen.
+From EV Require Import CaseLib JointCounts Info InfoBase InfoGen InfoPyBase MutualInfoGen.
 Import ListNotations.
 Definition nl4_eqb := list_eqb (list_eqb (list_eqb CaseLib.nl_eqb)).
 Definition q3_eqb := pair_eqb (pair_eqb Qeq_bool Qeq_bool) Qeq_bool.
@@ -27,7 +28,9 @@ Definition omap_eqb {A B} (e : B -> B -> bool) (f : A -> B) (a : option A) (b : 
   match a, b with Some x, Some y => e (f x) y | None, None => true | _, _ => false end.
 """
 RULE = ("jc: (the text of matrix_bincount2d regenerated from libinfo.pyx, Gen/InfoGen.v, is evaluated in Coq on every "
-        "jc case with explicit state counts, next to the hand model) random integer feature trajectories (1..12 frames, 1..4 features and 1..5 states per side, the two sides "
+        "jc case with explicit state counts, next to the hand model; the text of joint_counts regenerated from mutual_info.py, "
+        "Gen/MutualInfoGen.v, is evaluated on every jc case on the typed arrays (element type, 1-D flag, stored values), the "
+        "regenerated pooling loop on every mimat case, the regenerated divisor grid on every cc case) random integer feature trajectories (1..12 frames, 1..4 features and 1..5 states per side, the two sides "
         "different), all 8 integer dtypes on each side, C/F/strided layouts, 1..16 OpenMP threads, 1-D input, Y=None, "
         "default state counts, ids near the limit of 8-bit types against the opposite signedness; real joint_counts compared exactly with the model and with a brute-force count; malformed "
         "stream (negative id, id >= n, unequal lengths, empty) run in a worker subprocess and required to be rejected. "
@@ -40,8 +43,27 @@ RULE = ("jc: (the text of matrix_bincount2d regenerated from libinfo.pyx, Gen/In
         "dyadic distributions incl. zeros, negative entries, shape mismatch, infinite cases (entropy and table MI are "
         "called right after freeing NaN-filled blocks of the sizes they allocate). wmi: weighted_mi with "
         "uniform (equals unweighted) and dyadic weights. non-trivial := >= 2 frames and >= 2 distinct states (jc/mi), "
-        ">= 2 positive cells (ent/kl), non-square or unequal state counts (cc)")
-TRUSTED = ["translator/tr_info.py (libinfo.pyx:matrix_bincount2d: asserts, allocation, loop nest, increment -> "
+        ">= 2 positive cells (ent/kl), non-square or unequal state counts (cc). "
+        "micont: mi_matrix over the container forms of the trajectories (RaggedArray / list of arrays / 3-D array, mixed): "
+        "equal lengths (pooled table exact, also vs model pooled_counts and the regenerated pooling loop) and per-trajectory "
+        "length mismatches with equal total ([3,5] vs [5,3], frames moved between trajectories), unequal total, another number "
+        "of trajectories - required to be rejected whenever a zipped pair differs in length. jcmax: for each of the 8 integer "
+        "dtypes an id equal to the largest value of the type (or one less) on either side, declared state count smaller / "
+        "equal (id == n) / just enough / larger (8- and 16-bit; 32- and 64-bit only smaller), other side of the same or "
+        "another dtype: rejected exactly when id >= n (a crash of the worker counts as not rejected), else non-zero cells, "
+        "shape and per-pair totals (= frames) exact. mi with hist=...: Y is different data with the same per-feature "
+        "histograms as X (time shift, lagged copies, frame shuffle, independent shuffles of a balanced column): MI entry by "
+        "entry against the formula on the exact counts, also through mi_matrix on the data cut in two trajectories, and "
+        "unchanged when the states of ONE feature of Y are relabelled. jcthr: 200 000-400 000 frames, 2-3 states, one feature "
+        "pair as 1-D or (n,1) arrays (and a few 2-3 feature shapes), all dtypes, thread counts 1, three of {2,3,4,8,16}, 1 again, "
+        "3 repeats each: every table equals a pure-NumPy bincount and the single-thread table (not evaluated in Coq: "
+        "too long for vm_compute)")
+TRUSTED = ["translator/tr_infopy.py (mutual_info.py: joint_counts, mutual_information, _validate_feature_states_array, "
+           "channel_capacity_normalization, mi_matrix, weighted_mi; entropy.py: shannon_entropy, kl_divergence (1-D and 2-D) -> Gen/MutualInfoGen.v, "
+           "Gen/EntropyGen.v, proved equal to the model for all inputs; vocabulary Base/InfoPyBase.v: NumPy axes/broadcast/"
+           "masked-ufunc/promote_types/IEEE nan-inf semantics as stated there; promote_types, astype and the 1-D expansion "
+           "are also exercised against NumPy by the jc stream)",
+           "translator/tr_info.py (libinfo.pyx:matrix_bincount2d: asserts, allocation, loop nest, increment -> "
            "Gen/InfoGen.v, proved equal to the model; vocabulary Base/InfoBase.v)",
            "double-precision evaluation of sum p*log(p/(px*py)) / -sum p log p / sum p log(p/q) from the exact rational "
            "tables (harness glue, tolerance 1e-9)",
@@ -50,7 +72,11 @@ TRUSTED = ["translator/tr_info.py (libinfo.pyx:matrix_bincount2d: asserts, alloc
            "real-number theorems rest on the Coq standard library axioms of Reals (listed by Print Assumptions)"]
 ASSUMPTIONS = ["state counts fit a C int and tables fit memory; trajectories shorter than 2^32 frames (uint32 cells)",
                "information-theoretic laws are about exact real arithmetic; the implementation's doubles are compared at 1e-9",
-               "weighted_mi: weights non-negative; uniform-weight equality stated for weights exactly 1/T"]
+               "weighted_mi: weights non-negative; uniform-weight equality stated for weights exactly 1/T",
+               "generated Python layer: probability tables are exact rationals and logarithmic values ideal reals (the "
+               "`weights.sum() != 1` test of weighted_mi is read over exact rationals); integer arrays hold values of their "
+               "own element type that also fit int64; np.bincount's ValueError on negative ids and np.vstack's on ragged rows "
+               "are not modelled (weighted_mi reads only the columns below the declared state count)"]
 SHARD = 60
 EXHAUSTIVE = {"thorough": False}
 DTYPES = ["int8", "int16", "int32", "int64", "uint8", "uint16", "uint32", "uint64"]
@@ -309,8 +335,180 @@ def _gen_wmi(rng):
     return {"kind": "wmi", "X": X, "w": [str(x) for x in w], "n": n, "uniform": uniform}
 
 
+# ---- round 3s streams ---------------------------------------------------------------------------
+def _split_lengths(rng, total, k):
+    cuts = sorted(rng.sample(range(1, total), k - 1)) if k > 1 else []
+    return [b - a for a, b in zip([0] + cuts, cuts + [total])]
+
+
+def _gen_micont(rng):
+    """mi_matrix over the container forms the trajectories may come in (RaggedArray, list of arrays, 3-D array):
+    equal trajectory lengths (pooled counts must be exact) and per-trajectory length mismatches with equal total,
+    unequal total, or another number of trajectories (must be rejected: frame t of trajectory k has no partner)"""
+    fa, fb = rng.randint(1, 2), rng.randint(1, 2)
+    nx, ny = rng.randint(2, 3), rng.randint(2, 3)
+    mode = rng.choice(["ok", "ok", "eqtotal", "eqtotal", "eqtotal", "uneq", "uneq", "ktraj", "ktraj"])
+    k = rng.randint(2, 3)
+    if rng.random() < 0.4:
+        LX = [rng.randint(2, 5)] * k           # a rectangular side (can be a 3-D array)
+    else:
+        LX = _split_lengths(rng, rng.randint(k + 1, 10), k)
+    if mode == "ok":
+        LY = list(LX)
+    elif mode == "eqtotal":
+        LY = list(LX)
+        if len(set(LX)) > 1 and rng.random() < 0.6:
+            while LY == LX:
+                rng.shuffle(LY)                # [3, 5] against [5, 3]
+        else:
+            i = rng.choice([t for t in range(k) if LY[t] >= 2])     # move frames from one trajectory to another
+            j = rng.choice([t for t in range(k) if t != i])
+            d = rng.randint(1, LY[i] - 1)
+            LY[i] -= d
+            LY[j] += d
+    elif mode == "uneq":
+        LY = list(LX)
+        i = rng.randrange(k)
+        LY[i] = LY[i] + rng.choice([1, 2]) if (LY[i] == 1 or rng.random() < 0.5) else LY[i] - 1
+        if len(set(LX)) == 1 and rng.random() < 0.5:
+            LY = [LY[i]] * k                   # both sides rectangular, different frame counts
+    else:
+        tot = sum(LX)
+        while True:
+            k2 = rng.choice([q for q in (1, 2, 3, 4) if q != k and q <= tot])
+            if len(set(LX)) == 1 and tot % k2 == 0 and rng.random() < 0.6:
+                LY = [tot // k2] * k2          # (2, 3, f) against (3, 2, f)
+            else:
+                LY = _split_lengths(rng, tot, k2)
+            if any(a != b for a, b in zip(LX, LY)):
+                break
+
+    def form(L):
+        opts = ["ragged", "ragged", "list"] + (["3d", "3d"] if len(set(L)) == 1 else [])
+        return rng.choice(opts)
+    cx, cy = form(LX), form(LY)
+    if mode != "ok" and rng.random() < 0.5:
+        cx = cy = "ragged"
+    Xs = [[[rng.randrange(nx) for _ in range(fa)] for _ in range(l)] for l in LX]
+    Ys = [[[rng.randrange(ny) for _ in range(fb)] for _ in range(l)] for l in LY]
+    return {"kind": "micont", "Xs": Xs, "Ys": Ys, "nx": nx, "ny": ny, "cx": cx, "cy": cy, "mode": mode}
+
+
+def _gen_dmax(rng, dtype):
+    """an id equal to the largest value of the element type (or one less) against declared state counts smaller
+    than / equal to / larger than needed: rejected exactly when id >= n, whatever the element type"""
+    top = int(np.iinfo(dtype).max)
+    bits = np.dtype(dtype).itemsize * 8
+    idv = top - rng.choice([0, 0, 0, 1])
+    if bits <= 16:
+        n = rng.choice([idv, idv, idv - rng.randint(1, 9), (idv * rng.randint(3, 8)) // 10, rng.randint(2, 40),
+                        idv + 1, idv + 1, idv + 1 + rng.randint(1, 2)])
+    else:
+        n = rng.choice([2, 3, 5, 100, 1000, 32767])
+    fa, fb = rng.randint(1, 3), rng.randint(1, 3)
+    if bits <= 16 and n <= idv and rng.random() < 0.6:
+        fa, fb = 3, rng.randint(2, 3)          # room inside the table for a stray increment
+    T = rng.randint(2, 6)
+    other_n = rng.randint(2, 3)
+    side = rng.choice(["X", "Y"])
+    selfy = n <= 256 and rng.random() < 0.2
+    lo = max(1, min(n, 3))
+    big = [[rng.randrange(lo) for _ in range(fa if side == "X" or selfy else fb)] for _ in range(T)]
+    small = [[rng.randrange(other_n) for _ in range(fb if side == "X" else fa)] for _ in range(T)]
+    big[rng.randrange(T)][0 if rng.random() < 0.8 else rng.randrange(len(big[0]))] = idv
+    dother = dtype if rng.random() < 0.6 else rng.choice(DTYPES)
+    c = {"kind": "jcmax", "thr": rng.randint(1, 4), "id": idv, "n": n, "side": "X" if selfy else side}
+    if selfy:
+        c.update({"X": big, "Y": None, "nx": n, "ny": None, "dx": dtype, "dy": dtype})
+    elif side == "X":
+        c.update({"X": big, "Y": small, "nx": n, "ny": other_n, "dx": dtype, "dy": dother})
+    else:
+        c.update({"X": small, "Y": big, "nx": other_n, "ny": n, "dx": dother, "dy": dtype})
+    return c
+
+
+def _gen_mihist(rng):
+    """X against *different* data with the same per-feature histograms (time-shifted, frame-shuffled, balanced
+    relabelled copies): the MI matrix is that of the joint counts entry by entry (not symmetric in general)"""
+    n = rng.randint(2, 4)
+    f = rng.randint(2, 3)
+    how = rng.choice(["roll", "roll", "shuffle", "balanced", "lagged"])
+    if how == "balanced":
+        reps = rng.randint(2, 5)
+        col = lambda: rng.sample([s for s in range(n) for _ in range(reps)], n * reps)
+        cx, cy = [col() for _ in range(f)], [col() for _ in range(f)]
+        T = n * reps
+        X = [[cx[k][t] for k in range(f)] for t in range(T)]
+        Y = [[cy[k][t] for k in range(f)] for t in range(T)]
+    else:
+        T = rng.choice([6, 8, 12, 16, 24, 40])
+        if how == "lagged":                    # feature k is feature 0 delayed by k frames; Y is X delayed once more
+            x0 = [rng.randrange(n) for _ in range(T)]
+            X = [[x0[(t - k) % T] for k in range(f)] for t in range(T)]
+        else:
+            X = _traj(rng, T, f, n)
+        if how == "shuffle":
+            o = list(range(T))
+            while o == list(range(T)):
+                rng.shuffle(o)
+            Y = [list(X[t]) for t in o]
+        else:
+            s = rng.randint(1, T - 1)
+            Y = [list(X[(t - s) % T]) for t in range(T)]
+    px = list(range(n)); rng.shuffle(px)
+    py = list(range(n)); rng.shuffle(py)
+    order = list(range(T)); rng.shuffle(order)
+    sig = list(range(n))
+    while sig == list(range(n)):
+        rng.shuffle(sig)
+    return {"kind": "mi", "X": X, "Y": Y, "nx": n, "ny": n, "permx": px, "permy": py, "order": order,
+            "hist": how, "relabel_one": [rng.randrange(f), sig], "cut": rng.randint(1, T - 1)}
+
+
+def _gen_jcthr(rng, i):
+    """long single-feature-pair inputs (1-D or (n, 1)), few states, counted with 1 and with many threads,
+    several times: every table equals the single-thread table and a pure-NumPy count"""
+    fa, fb = (1, 1) if i % 3 < 2 else rng.choice([(1, 2), (2, 1), (2, 2), (3, 1)])
+    form = ["1d", "col", "col"][i % 3]
+    selfy = fa == fb and rng.random() < 0.25
+    return {"kind": "jcthr", "seed": rng.randrange(10 ** 6), "T": rng.choice([200000, 250000, 400000]),
+            "na": rng.randint(2, 3), "nb": rng.randint(2, 3), "fa": fa, "fb": fb, "form": form, "selfy": selfy,
+            "dx": rng.choice(DTYPES), "same_dtype": rng.random() < 0.7, "dy": rng.choice(DTYPES),
+            "threads": [1] + rng.sample([2, 3, 4, 8, 16], 3) + [1], "repeats": 3}
+
+
+def _thr_data(c):
+    rs = np.random.RandomState(c["seed"])
+    T = c["T"]
+    X = rs.randint(0, c["na"], size=(T, c["fa"]))
+    if c["selfy"]:
+        Y = None
+    else:
+        noise = rs.randint(0, c["nb"], size=(T, c["fb"]))
+        keep = rs.uniform(size=(T, c["fb"])) < 0.7
+        Y = np.where(keep, X[:, [0] * c["fb"]] % c["nb"], noise)
+    X = X.astype(c["dx"])
+    if Y is not None:
+        Y = Y.astype(c["dx"] if c["same_dtype"] else c["dy"])
+    if c["form"] == "1d":
+        X = X[:, 0]
+        Y = None if Y is None else Y[:, 0]
+    return X, Y
+
+
+def _thr_reference(c):
+    """pure NumPy: one bincount per feature pair"""
+    X, Y = _thr_data(c)
+    X2 = X.reshape(len(X), -1).astype(np.int64)
+    Y2, nb = (X2, c["na"]) if Y is None else (Y.reshape(len(Y), -1).astype(np.int64), c["nb"])
+    return [[np.bincount(X2[:, p] * nb + Y2[:, q], minlength=c["na"] * nb).reshape(c["na"], nb).tolist()
+             for q in range(Y2.shape[1])] for p in range(X2.shape[1])]
+
+
 def translate(repo):
-    return tr_info.translate(repo)
+    out = dict(tr_info.translate(repo))
+    out.update(tr_infopy.translate(repo))
+    return out
 
 
 def generate(rng, tier):
@@ -336,6 +534,15 @@ def generate(rng, tier):
         cases.append(_gen_kl(rng))
     for _ in range(30 * k):
         cases.append(_gen_wmi(rng))
+    for _ in range(60 * k):
+        cases.append(_gen_micont(rng))
+    for _ in range(6 * k):
+        for d in DTYPES:
+            cases.append(_gen_dmax(rng, d))
+    for _ in range(30 * k):
+        cases.append(_gen_mihist(rng))
+    for i in range(6 if tier == "quick" else 24):
+        cases.append(_gen_jcthr(rng, i))
     if tier == "thorough":
         # every dtype pair x every thread count on one fixed non-trivial input, and a thread sweep
         X = [[0, 1, 2], [1, 1, 0], [2, 0, 0], [1, 2, 1], [0, 1, 2]]
@@ -483,6 +690,13 @@ def _run_local(c):
                 res["mi_relabel"] = _fl(M.mutual_information(M.joint_counts(Xr, Yr, nx, ny)))
                 o = np.array(c["order"])
                 res["mi_perm"] = _fl(M.mutual_information(M.joint_counts(X[o], Y[o], nx, ny)))
+            if c.get("hist"):
+                j, sig = c["relabel_one"]      # relabel the states of ONE feature of Y
+                Y2 = Y.copy()
+                Y2[:, j] = np.array(sig)[Y[:, j]]
+                res["mi_relabel_one"] = _fl(M.mutual_information(M.joint_counts(X, Y2, nx, ny)))
+                h = c["cut"]                   # the same data as two pooled trajectories
+                res["mi_mat"] = _fl(M.mi_matrix([X[:h], X[h:]], [Y[:h], Y[h:]], nx, ny, normalize=False))
             T = float(len(X))
             res["ent_x"] = [float(E.shannon_entropy(np.bincount(X[:, a], minlength=nx) / T, normalize=False))
                             for a in range(X.shape[1])]
@@ -512,6 +726,69 @@ def _run_local(c):
             return {"err": type(ex).__name__}
         finally:
             M.mutual_information = orig
+    if k == "micont":
+        from enspara import ra
+        captured = []
+        orig = M.mutual_information
+
+        def spy(jc):
+            captured.append(np.array(jc).tolist())
+            return orig(jc)
+
+        def container(trajs, form):
+            arrs = [np.array(t) for t in trajs]
+            if form == "list":
+                return arrs
+            if form == "3d":
+                return np.array(trajs)
+            # lengths alternately as a Python list and as an ndarray: with a list of *equal* lengths the
+            # constructor used to keep rows of dtype object, which the kernel refuses with TypeError
+            # (fixed in /repo; see known_findings.txt) - a valid input must be counted whichever form is used
+            lens = [len(t) for t in trajs]
+            if (sum(lens) + len(lens)) % 2 == 0:
+                lens = np.array(lens)
+            return ra.RaggedArray(array=np.concatenate(arrs), lengths=lens)
+        M.mutual_information = spy
+        try:
+            Xs, Ys = container(c["Xs"], c["cx"]), container(c["Ys"], c["cy"])
+            out = M.mi_matrix(Xs, Ys, c["nx"], c["ny"], normalize=False)
+            return {"mi": _fl(out), "jc": captured[0] if captured else None}
+        except Exception as ex:
+            return {"err": type(ex).__name__}
+        finally:
+            M.mutual_information = orig
+    if k == "jcmax":
+        got = _set_threads(c["thr"])
+        X = np.array(c["X"], dtype=c["dx"])
+        Y = None if c["Y"] is None else np.array(c["Y"], dtype=c["dy"])
+        try:
+            with warnings.catch_warnings():
+                warnings.simplefilter("ignore")
+                jc = M.joint_counts(X, Y, c["nx"], c["ny"])
+            nz = np.argwhere(jc)
+            return {"shape": list(jc.shape), "dtype": str(jc.dtype), "threads": got,
+                    "nz": [[int(v) for v in idx] + [int(jc[tuple(idx)])] for idx in nz],
+                    "totals": jc.sum(axis=(2, 3), dtype=np.int64).tolist()}
+        except Exception as ex:
+            return {"err": type(ex).__name__}
+    if k == "jcthr":
+        X, Y = _thr_data(c)
+        ny = None if Y is None else c["nb"]
+        tables, got = [], []
+        try:
+            for thr in c["threads"]:
+                got.append(_set_threads(thr))
+                reps = []
+                for _ in range(c["repeats"]):
+                    with warnings.catch_warnings():
+                        warnings.simplefilter("ignore")
+                        reps.append(M.joint_counts(X, Y, c["na"], ny).tolist())
+                tables.append(reps)
+            return {"tables": tables, "threads": got}
+        except Exception as ex:
+            return {"err": type(ex).__name__}
+        finally:
+            _set_threads(1)
     if k == "cc":
         mi = np.array([[float(F(x)) for x in row] for row in c["mi"]])
         before = mi.copy()
@@ -632,7 +909,7 @@ def _cc_expected(c, rows, cols):
 def oracle(c, r):
     out = []
     k = c["kind"]
-    if isinstance(r, dict) and r.get("err") == "Crashed" and not (k == "jc" and c.get("bad")):
+    if isinstance(r, dict) and r.get("err") == "Crashed" and not (k == "jc" and c.get("bad")) and k != "jcmax":
         return [("crash", "the interpreter died while running this input (exit %s): memory corruption in the "
                  "kernel" % r.get("rc"))]
     if isinstance(r, dict) and str(r.get("err", "")).startswith("Unexpected:"):
@@ -683,6 +960,15 @@ def oracle(c, r):
                     out.append(("mi-relabel", "mi[%d][%d] %r -> %r after relabelling states" % (a, b, m, r["mi_relabel"][a][b])))
                 if not _close(r["mi_perm"][a][b], m):
                     out.append(("mi-frame-order", "mi[%d][%d] %r -> %r after reordering frames" % (a, b, m, r["mi_perm"][a][b])))
+                if c.get("hist"):
+                    m1 = r["mi_relabel_one"][a][b]
+                    if not _close(m1, m):
+                        out.append(("mi-relabel", "mi[%d][%d] %r -> %r after relabelling the states of feature %d of Y "
+                                    "only (Y has the same per-feature histograms as X: %s)" % (
+                                        a, b, m, m1, c["relabel_one"][0], c["hist"])))
+                    if not _close(r["mi_mat"][a][b], e):
+                        out.append(("mi-value", "mi_matrix over the data cut in two trajectories: [%d][%d]=%r, "
+                                    "formula on the pooled counts gives %r" % (a, b, r["mi_mat"][a][b], e)))
                 if c["Y"] is None:
                     if not _close(r["mi"][b][a], m, 1e-12):
                         out.append(("mi-symmetric", "mi[%d][%d]=%r but mi[%d][%d]=%r" % (a, b, m, b, a, r["mi"][b][a])))
@@ -725,6 +1011,72 @@ def oracle(c, r):
                 if not _close(r["mi"][a][b], e):
                     out.append(("cc-entry" if c["normalize"] else "mi-value",
                                 "mi_matrix[%d][%d]=%r expected %r" % (a, b, r["mi"][a][b], e)))
+        return out
+    if k == "micont":
+        lx, ly = [len(x) for x in c["Xs"]], [len(y) for y in c["Ys"]]
+        if any(a != b for a, b in zip(lx, ly)):
+            if "err" not in r:
+                out.append(("reject-len", "trajectory lengths %s (%s) against %s (%s): feature arrays of different "
+                            "lengths were not rejected; mi_matrix returned %s" % (lx, c["cx"], ly, c["cy"], str(r.get("mi"))[:200])))
+            return out
+        if len(lx) != len(ly):
+            return out
+        if "err" in r:
+            return [("pooled", "valid input (%s / %s, lengths %s) raised %s" % (c["cx"], c["cy"], lx, r["err"]))]
+        X = [row for x in c["Xs"] for row in x]
+        Y = [row for y in c["Ys"] for row in y]
+        exp = _brute(X, Y, c["nx"], c["ny"])
+        if r["jc"] != exp:
+            out.append(("pooled", "pooled table (%s / %s) is not the count over all trajectories" % (c["cx"], c["cy"])))
+        for a in range(len(X[0])):
+            for b in range(len(Y[0])):
+                e = _mi_val(exp[a][b])
+                if not _close(r["mi"][a][b], e):
+                    out.append(("mi-value", "mi_matrix[%d][%d]=%r expected %r" % (a, b, r["mi"][a][b], e)))
+        return out
+    if k == "jcmax":
+        idv, n, T = c["id"], c["n"], len(c["X"])
+        dt = c["dx"] if c["side"] == "X" else c["dy"]
+        if idv >= n:
+            if "err" not in r or r["err"] == "Crashed":
+                out.append(("reject-dtype-max", "state id %d (%s, largest value of the type %d) with n_%s=%d was not "
+                            "rejected: %s" % (idv, dt, int(np.iinfo(dt).max), c["side"].lower(), n,
+                                              ("per-pair totals %s, every entry should be %d frames" % (r.get("totals"), T))
+                                              if "totals" in r else str(r)[:200])))
+            return out
+        if "err" in r:
+            return [("counts", "valid input (id %d < n %d, %s) raised %s" % (idv, n, dt, r["err"]))]
+        X = c["X"]
+        Y, nx, ny = (X, c["nx"], c["nx"]) if c["Y"] is None else (c["Y"], c["nx"], c["ny"])
+        exp = {}
+        for t in range(T):
+            for a in range(len(X[0])):
+                for b in range(len(Y[0])):
+                    key = (a, b, X[t][a], Y[t][b])
+                    exp[key] = exp.get(key, 0) + 1
+        got = {tuple(e[:4]): e[4] for e in r["nz"]}
+        if r["shape"] != [len(X[0]), len(Y[0]), nx, ny] or r["dtype"] != "uint32":
+            out.append(("counts", "table of shape %s %s, expected %s uint32" % (r["shape"], r["dtype"], [len(X[0]), len(Y[0]), nx, ny])))
+        if got != exp:
+            out.append(("counts", "joint counts with id %d (%s), n=%d: non-zero cells %s != exact counts %s" % (
+                idv, dt, n, str(sorted(got.items()))[:300], str(sorted(exp.items()))[:300])))
+        if any(v != T for row in r["totals"] for v in row):
+            out.append(("counts", "per-pair totals %s, every entry should be %d frames" % (r["totals"], T)))
+        return out
+    if k == "jcthr":
+        if "err" in r:
+            return [("thread-counts", "valid input raised %s" % r["err"])]
+        ref = _thr_reference(c)
+        one = r["tables"][0][0]
+        for ti, reps in enumerate(r["tables"]):
+            for ri, tbl in enumerate(reps):
+                if tbl != ref or tbl != one:
+                    tot = [[sum(map(sum, H)) for H in row] for row in tbl]
+                    out.append(("thread-counts", "%d thread(s) (requested %d), repeat %d: table %s differs from the NumPy count "
+                                "%s / the single-thread table; per-pair totals %s of %d frames" % (
+                                    r["threads"][ti], c["threads"][ti], ri, str(tbl)[:200], str(ref)[:200], tot, c["T"])))
+                    if len(out) >= 3:
+                        return out
         return out
     if k == "cc":
         rows, cols = len(c["mi"]), len(c["mi"][0])
@@ -844,6 +1196,29 @@ def _jc_term(c):
         _zll(X), "None" if Y is None else "(Some %s)" % _zll(Y), copt(c["nx"], cz, "Z"), copt(c["ny"], cz, "Z"))
 
 
+_DT = {"int8": "I8", "int16": "I16", "int32": "I32", "int64": "I64", "uint8": "U8", "uint16": "U16", "uint32": "U32",
+       "uint64": "U64"}
+
+
+def _ndarr(rows, dtype, oned=False):
+    """the array as the real code receives it: values after conversion to `dtype`, rank-1 flag"""
+    stored = np.array(rows, dtype=np.int64).astype(dtype).tolist() if rows else []
+    is1d = bool(oned and rows and len(rows[0]) == 1)
+    return "{| dt := %s; is1d := %s; vals := %s |}" % (_DT[dtype], cb(is1d), _zll(stored))
+
+
+def _ndarr_exact(rows, dtype):
+    """as _ndarr, for values that are already values of `dtype` (incl. the largest ones)"""
+    return "{| dt := %s; is1d := false; vals := %s |}" % (_DT[dtype], _zll(np.array(rows, dtype=dtype).tolist()))
+
+
+def _gen_jc_term(c):
+    """joint_counts as regenerated from mutual_info.py (dtype harmonisation, defaults, 1-D expansion included)"""
+    Y = "None" if c["Y"] is None else "(Some %s)" % _ndarr(c["Y"], c["dy"], c["oned"])
+    return "gen_joint_counts %s %s %s %s" % (_ndarr(c["X"], c["dx"], c["oned"]), Y, copt(c["nx"], cz, "Z"),
+                                            copt(c["ny"], cz, "Z"))
+
+
 def _states(n):
     return "(inl %s)" % cz(n) if isinstance(n, int) else "(inr %s)" % clist(n, cz, "Z")
 
@@ -861,6 +1236,8 @@ def coq_check(c, r):
             ny = c["nx"] if c["Y"] is None else c["ny"]
             t = "(%s) && opt_eqb nl4_eqb (gen_matrix_bincount2d %s %s %s %s) %s" % (
                 t, _zll(c["X"]), _zll(Y), cz(c["nx"]), cz(ny), exp)
+        # the text regenerated from mutual_info.py:joint_counts, on the typed arrays
+        t = "(%s) && opt_eqb nl4_eqb (%s) %s" % (t, _gen_jc_term(c), exp)
         return t
     if k == "mi":
         if "err" in r:
@@ -877,14 +1254,52 @@ def coq_check(c, r):
         xys = clist(list(zip(c["Xs"], c["Ys"])), lambda p: "(%s, %s)" % (_zll(p[0]), _zll(p[1])))
         exp = "(Some %s)" % _n4(r["jc"]) if r.get("jc") is not None else "(@None tbl4)"
         t = "opt_eqb nl4_eqb (pooled_counts %s %s %s) %s" % (xys, cz(mx), cz(my), exp)
+        if len(c["Xs"]) == len(c["Ys"]):
+            # the pooling loop regenerated from mutual_info.py:mi_matrix
+            t = "(%s) && opt_eqb nl4_eqb (gen_mi_matrix_counts %s %s %s %s) %s" % (
+                t, clist(c["Xs"], lambda x: _ndarr(x, "int64"), "ndarr"), clist(c["Ys"], lambda y: _ndarr(y, "int64"), "ndarr"),
+                _states(c["nx"]), _states(c["ny"]), exp)
         if c["normalize"] and "err" not in r:
             fa, fb = len(c["Xs"][0][0]), len(c["Ys"][0][0])
             t = "(%s) && negb (opt_eqb zll_eqb (cc_grid %s %s %s %s) None)" % (t, cn(fa), cn(fb), _states(c["nx"]), _states(c["ny"]))
         return t
+    if k == "micont":
+        if r.get("err") == "Crashed":
+            return None
+        pairs = list(zip(c["Xs"], c["Ys"]))      # the loop of mi_matrix runs over zip(Xs, Ys)
+        xys = clist(pairs, lambda p: "(%s, %s)" % (_zll(p[0]), _zll(p[1])))
+        exp = "(Some %s)" % _n4(r["jc"]) if r.get("jc") is not None else "(@None tbl4)"
+        t = "opt_eqb nl4_eqb (pooled_counts %s %s %s) %s" % (xys, cz(c["nx"]), cz(c["ny"]), exp)
+        if len(c["Xs"]) == len(c["Ys"]):
+            t = "(%s) && opt_eqb nl4_eqb (gen_mi_matrix_counts %s %s %s %s) %s" % (
+                t, clist(c["Xs"], lambda x: _ndarr(x, "int64"), "ndarr"), clist(c["Ys"], lambda y: _ndarr(y, "int64"), "ndarr"),
+                _states(c["nx"]), _states(c["ny"]), exp)
+        return t
+    if k == "jcmax":
+        if r.get("err") == "Crashed":
+            return None
+        if "err" in r:
+            exp = "(@None tbl4)"
+        else:
+            sh = r["shape"]
+            if sh[0] * sh[1] * sh[2] * sh[3] > 2500:
+                return None
+            jc = np.zeros(sh, dtype=np.int64)
+            for e in r["nz"]:
+                jc[tuple(e[:4])] = e[4]
+            exp = "(Some %s)" % _n4(jc.tolist())
+        t = "opt_eqb nl4_eqb (%s) %s" % (_jc_term(c), exp)
+        if all(v < 2 ** 63 for A in (c["X"], c["Y"] or []) for row in A for v in row):
+            Y = "None" if c["Y"] is None else "(Some %s)" % _ndarr_exact(c["Y"], c["dy"])
+            t = "(%s) && opt_eqb nl4_eqb (gen_joint_counts %s %s %s %s) %s" % (
+                t, _ndarr_exact(c["X"], c["dx"]), Y, copt(c["nx"], cz, "Z"), copt(c["ny"], cz, "Z"), exp)
+        return t
     if k == "cc":
         rows, cols = len(c["mi"]), len(c["mi"][0])
         exp = "(Some %s)" % clist(r["grid"], lambda row: clist(row, cz, "Z"), "(list Z)") if "grid" in r else "(@None (list (list Z)))"
-        return "opt_eqb zll_eqb (cc_grid %s %s %s %s) %s" % (cn(rows), cn(cols), _states(c["nx"]), _states(c["ny"]), exp)
+        return "opt_eqb zll_eqb (cc_grid %s %s %s %s) %s && opt_eqb zll_eqb (gen_cc_min_num_states %s %s %s %s) %s" % (
+            cn(rows), cn(cols), _states(c["nx"]), _states(c["ny"]), exp,
+            cn(rows), cn(cols), _states(c["nx"]), _states(c["ny"]), exp)
     if k == "ent":
         p = [F(x) for x in c["p"]]
         q = p
@@ -934,6 +1349,11 @@ def coq_show(c):
         my = c["ny"] if isinstance(c["ny"], int) else max(c["ny"])
         xys = clist(list(zip(c["Xs"], c["Ys"])), lambda p: "(%s, %s)" % (_zll(p[0]), _zll(p[1])))
         return "pooled_counts %s %s %s" % (xys, cz(mx), cz(my))
+    if k == "micont":
+        xys = clist(list(zip(c["Xs"], c["Ys"])), lambda p: "(%s, %s)" % (_zll(p[0]), _zll(p[1])))
+        return "pooled_counts %s %s %s" % (xys, cz(c["nx"]), cz(c["ny"]))
+    if k == "jcmax":
+        return "match %s with Some _ => true | None => false end" % _jc_term(c)
     if k == "cc":
         return "cc_grid %s %s %s %s" % (cn(len(c["mi"])), cn(len(c["mi"][0])), _states(c["nx"]), _states(c["ny"]))
     if k == "ent":
@@ -950,6 +1370,12 @@ def nontrivial(c, r):
     if k in ("jc", "mi"):
         X = c["X"]
         return (not c.get("bad")) and len(X) >= 2 and len({v for row in X for v in row}) >= 2 and "err" not in r
+    if k == "micont":
+        return "err" not in r and [len(x) for x in c["Xs"]] == [len(y) for y in c["Ys"]]
+    if k == "jcmax":
+        return "err" not in r and c["id"] < c["n"]
+    if k == "jcthr":
+        return "err" not in r
     if k == "mitab":
         return any(sum(1 for row in H for v in row if v) >= 2 for r1 in c["jc"] for H in r1)
     if k == "mimat":
@@ -988,8 +1414,30 @@ def tags(c, r):
                 t.append("ids-near-dtype-limit")
         if c["nx"] is not None and (c["Y"] is None or c["ny"] is not None) and r.get("err") != "Crashed":
             t.append("generated-text-evaluated")
+        if r.get("err") != "Crashed":
+            t.append("generated-python-evaluated")
+            if not c["bad"] and c["Y"] is not None and c["dx"] != c["dy"]:
+                t.append("generated-harmonisation-evaluated")
     if k == "mi":
         t.append("mi-self" if c["Y"] is None else "mi-two-sided")
+        if c.get("hist"):
+            t += ["same-histograms", "hist-" + c["hist"]]
+    if k == "micont":
+        t += sorted({"container-" + c["cx"], "container-" + c["cy"]}) + ["traj-len-" + c["mode"]]
+        if c["cx"] != c["cy"]:
+            t.append("container-mixed")
+        if "err" in r:
+            t.append("pooled-rejected")
+        if c["mode"] != "ok" and c["cx"] == c["cy"] == "ragged":
+            t.append("ragged-both-mismatch")
+    if k == "jcmax":
+        t += ["dtype-max-" + (c["dx"] if c["side"] == "X" else c["dy"]), "dtype-max-side-" + c["side"],
+              "dtype-max-rejected" if "err" in r else "dtype-max-accepted"]
+        if c["id"] == c["n"]:
+            t.append("dtype-max-id-equals-n")
+    if k == "jcthr":
+        t.append("single-pair-threads" if (c["fa"], c["fb"]) == (1, 1) else "multi-pair-threads")
+        t.append("thr-form-" + c["form"])
     if k == "mitab" and any(sum(map(sum, H)) == 0 for r1 in c["jc"] for H in r1):
         t.append("never-observed-pair")
     if k == "mimat":
@@ -1009,9 +1457,14 @@ def tags(c, r):
     return t
 
 
-ESSENTIAL_TAGS = ["jc", "generated-text-evaluated", "ids-near-dtype-limit", "default-n", "bad-neg", "bad-big", "bad-len", "mixed-dtypes", "different-feature-counts", "self",
+ESSENTIAL_TAGS = ["jc", "generated-text-evaluated", "generated-python-evaluated", "generated-harmonisation-evaluated", "ids-near-dtype-limit", "default-n", "bad-neg", "bad-big", "bad-len", "mixed-dtypes", "different-feature-counts", "self",
                   "layout-F", "layout-S", "mi-self", "mi-two-sided", "never-observed-pair", "normalized",
-                  "cc-nonsquare", "cc-rejected", "kl-inf", "kl-zero", "kl-pos", "kl-near-equal", "uniform-weights", "general-weights"]
+                  "cc-nonsquare", "cc-rejected", "kl-inf", "kl-zero", "kl-pos", "kl-near-equal", "uniform-weights", "general-weights",
+                  "container-ragged", "container-list", "container-3d", "traj-len-ok", "traj-len-eqtotal", "traj-len-uneq",
+                  "traj-len-ktraj", "ragged-both-mismatch", "dtype-max-rejected", "dtype-max-accepted",
+                  "dtype-max-id-equals-n", "dtype-max-side-X", "dtype-max-side-Y", "same-histograms", "hist-roll",
+                  "hist-shuffle", "hist-balanced", "single-pair-threads", "thr-form-1d", "thr-form-col"] + \
+                 ["dtype-max-" + d for d in DTYPES]
 
 
 if __name__ == "__main__" and "--worker" in sys.argv:
